@@ -399,6 +399,13 @@ def step(ctx, c, twin, dtypes, hist, kind, n, span, op, optag, opval_factory, ta
         if p_out != outcome or not series_same(after, snap(plain_twin)):
             ctx.violation('series-shape', f'{kind}: {desc} -> {outcome}; the same operation with the plain Python value {PLAIN_EQUIVALENT[optag]()!r} -> {p_out}; series equal: {series_same(after, snap(plain_twin))}', case)
             return False
+    if op == 'add_attr' and target in before['index']:
+        # the name of an existing variable is taken: a new attribute of that name is a duplicate
+        ctx.count('duplicate_name_attributes')
+        if outcome == 'ok' or not series_same(before, after) or after['keys'] != before['keys']:
+            ctx.violation('failed-assignment-mutates', f'{kind}: add_attribute({target!r}, ...) although {target!r} is a variable -> {outcome}; series changed: {not series_same(before, after)}; '
+                                                       f'instance entries {sorted(set(after["keys"]) ^ set(before["keys"]))}', case)
+            return False
     if op == 'label' and target in before['index'] and extra not in span:
         # a label that is not in the span addresses no period: nothing to assign to
         ctx.count('absent_label_assignments')
@@ -515,7 +522,7 @@ def choose(rng, c, n, span, op):
     if op == 'lslice':
         return (rng.choice(names + not_variables[:rng.choice([0, 0, 12])]) if names else 'A'), (rng.choice(span + [None]), rng.choice(span + [None]), rng.choice([None, 1, 2]))
     if op == 'add_attr':
-        return rng.choice(['note', 'A', 'span', 'memo']), None
+        return rng.choice(['note', 'A', 'span', 'memo'] + names[:2]), None
     if op == 'newattr':
         return rng.choice(['a', 'Aa', 'note2', 'b', 'Bb', 'c_', 'note', 'memo', 'note', 'memo', 'copy', 'solve', 'LAGS', 'NAMES', 'eval', 'size', 'reindex', 'to_dataframe', 'ENDOGENOUS']), None
     return None, None
